@@ -345,7 +345,11 @@ def check_exchange(S, rec, rng):
     else:
         hdrs.append(("Content-Length", str(len(body))))
         wire = body
-    raw = f"{method} {line} HTTP/1.1\r\n".encode("latin1") + b"".join(f"{k}: {v}\r\n".encode() for k, v in hdrs) + b"\r\n" + wire
+    # the version the *client* speaks (the handler's own protocol_version is drawn below): a chunked response is
+    # only intelligible to an HTTP/1.1 client
+    req_version = rng.choice(["HTTP/1.1", "HTTP/1.1", "HTTP/1.1", "HTTP/1.0"])
+    rec.observe("request_version:" + req_version)
+    raw = f"{method} {line} {req_version}\r\n".encode("latin1") + b"".join(f"{k}: {v}\r\n".encode() for k, v in hdrs) + b"\r\n" + wire
     pattern = [rng.choice([1, 2, 5, 100, "line", "all", "into"]) for _ in range(3)]
     status = rng.choice(["200 OK", "201 Created", "204 No Content", "304 Not Modified", "404 Not Found", "500 Oops", "299 Custom", "100 Continue", "206 Partial Content"])
     with_cl = rng.random() < 0.5
@@ -498,7 +502,7 @@ def check_exchange(S, rec, rng):
     if sum(1 for k, v in resp["headers"] if k.lower() in ("server", "date")) > 2 or b"HTTP/1." in resp["rest"][:4000] and b"HTTP/1." not in payload:
         return rbad("C19/response-head-repeated", f"{out[:300]!r}")
     te = [v for k, v in resp["headers"] if k.lower() == "transfer-encoding"]
-    should_chunk = version == "HTTP/1.1" and not with_cl and method != "HEAD" and not (100 <= code < 200 or code in (204, 304))
+    should_chunk = version == "HTTP/1.1" and req_version == "HTTP/1.1" and not with_cl and method != "HEAD" and not (100 <= code < 200 or code in (204, 304))
     if bool(te) != should_chunk:
         return rbad("C19/chunked-framing-decision", f"Transfer-Encoding {te!r} but should_chunk={should_chunk}")
     if te:
